@@ -3,8 +3,8 @@ Lemmas for C07_attrs_preserved: `set_attribute` / `remove_attribute` on the attr
 -/
 import LolHtml.Spec.Edit
 
-namespace LolHtml.Lemmas.Attrs
-open LolHtml LolHtml.Model LolHtml.Spec.Edit
+namespace LolHtml.Lemmas.EditAttrs
+open LolHtml LolHtml.EditModel LolHtml.Spec.Edit
 
 set_option maxRecDepth 100000 in
 theorem asciiLower_idem (b : UInt8) : asciiLower (asciiLower b) = asciiLower b := by
@@ -359,4 +359,4 @@ theorem startTag_attributes (t : StartTag) (ops : List StartTagOp) :
           simp only
           exact (filter_eq_self_of_length _ _ hr.symm).symm
 
-end LolHtml.Lemmas.Attrs
+end LolHtml.Lemmas.EditAttrs
